@@ -426,7 +426,7 @@ def run(check, repo: Repo) -> None:
     _rule_config(check, repo)
 
 
-def _rule_reserved_keys(check, repo: Repo, W: WriterModel, R: ReaderModel) -> None:
+def _rule_reserved_keys(check, repo: Repo, W: WriterModel, R: ReaderModel, rule: str = "C01-R3", only=None) -> None:
     mod = W.mod
     # keys that can land on an *object* group's attrs
     obj_keys: list[tuple[str, str]] = []  # (pattern text, origin)
@@ -480,17 +480,21 @@ def _rule_reserved_keys(check, repo: Repo, W: WriterModel, R: ReaderModel) -> No
         return res
 
     for text, origin in obj_keys:
+        if only is not None and not only(text):
+            continue
         samples = [text.replace("{}", s) for s in (("x", "other_name") if "{}" in text else ("",))]
         verdicts = [filtered(s) for s in samples]
         construct = f"_recursive_load[attr loop] must not restore metadata key '{text}' (written by {origin})"
         if any(v is None for v in verdicts):
-            raise AnalysisError(f"C01-R3: attribute filter not understood for key {text}")
+            raise AnalysisError(f"{rule}: attribute filter not understood for key {text}")
         check.decide(
-            all(verdicts), "C01-R3", construct,
+            all(verdicts), rule, construct,
             "filtered", mod.line(loop),
             fail_detail=f"metadata key '{text}' is written on the object group by {origin} but the attribute "
                         f"restoration loop does not filter it: it comes back as an attribute of the loaded object")
 
+    if only is not None:
+        return
     # dict container groups: keys on the group = _container_type + path flags of items
     dict_keys = [k.text for k, _, st in W.summaries["_serialize_container"].keys
                  if _in_dict_arm(W, st)]
@@ -613,7 +617,8 @@ def _rule_container_kinds(check, W: WriterModel, R: ReaderModel) -> None:
             check.decide(ok, "C01-R5", "_deserialize_container[dict] returns the mapping", text, mod.line(test))
         elif vals == {"list", "tuple"}:
             # some expression must distinguish the two kinds by the tag: list for "list", tuple(...) otherwise
-            good = False
+            selectors = []
+            guarded_returns: set[int] = set()
             for n in ast.walk(fake):
                 if isinstance(n, ast.IfExp) and isinstance(n.test, ast.Compare) and len(n.test.ops) == 1:
                     l, op, r = n.test.left, n.test.ops[0], n.test.comparators[0]
@@ -622,19 +627,47 @@ def _rule_container_kinds(check, W: WriterModel, R: ReaderModel) -> None:
                         f_is_tuple = isinstance(n.orelse, ast.Call) and call_name(n.orelse) == "tuple"
                         eq = isinstance(op, ast.Eq)
                         if r.value == "list" and ((eq and f_is_tuple and not t_is_tuple) or (not eq and t_is_tuple and not f_is_tuple)):
-                            good = True
+                            selectors.append(n)
                         if r.value == "tuple" and ((eq and t_is_tuple and not f_is_tuple) or (not eq and f_is_tuple and not t_is_tuple)):
-                            good = True
+                            selectors.append(n)
                 if isinstance(n, ast.If) and isinstance(n.test, ast.Compare) and len(n.test.ops) == 1:
-                    l, r = n.test.left, n.test.comparators[0]
-                    if isinstance(l, ast.Name) and l.id == R.ctype_var and isinstance(r, ast.Constant) and r.value in ("list", "tuple"):
-                        b = ast.Module(body=n.body, type_ignores=[])
-                        has_tuple = any(isinstance(c, ast.Call) and call_name(c) == "tuple" for c in ast.walk(b))
-                        if (r.value == "tuple") == has_tuple:
-                            good = True
-            check.decide(good, "C01-R5", "_deserialize_container[list|tuple] rebuilds the tagged kind",
-                         "list for 'list', tuple(...) for 'tuple'", mod.line(test),
-                         fail_detail="no expression in the list/tuple arm selects list vs tuple by the stored tag")
+                    l, op, r = n.test.left, n.test.ops[0], n.test.comparators[0]
+                    if (isinstance(l, ast.Name) and l.id == R.ctype_var and isinstance(r, ast.Constant)
+                            and r.value in ("list", "tuple") and isinstance(op, (ast.Eq, ast.NotEq))):
+                        tuple_side = n.body if (r.value == "tuple") == isinstance(op, ast.Eq) else n.orelse
+                        list_side = n.orelse if tuple_side is n.body else n.body
+                        t_rets = [x for x in ast.walk(ast.Module(body=tuple_side, type_ignores=[])) if isinstance(x, ast.Return)]
+                        l_rets = [x for x in ast.walk(ast.Module(body=list_side, type_ignores=[])) if isinstance(x, ast.Return)]
+                        if t_rets and all(isinstance(x.value, ast.Call) and call_name(x.value) == "tuple" for x in t_rets) and \
+                                all(not (isinstance(x.value, ast.Call) and call_name(x.value) == "tuple") for x in l_rets):
+                            guarded_returns |= {id(x) for x in t_rets + l_rets}
+            from ..core.repo import definitions
+
+            def derives_from_selector(e: ast.AST) -> bool:
+                seen: set[str] = set()
+                work = [e]
+                while work:
+                    x = work.pop()
+                    for sub in ast.walk(x):
+                        if any(sub is sel for sel in selectors):
+                            return True
+                        if isinstance(sub, ast.Name) and sub.id not in seen:
+                            seen.add(sub.id)
+                            for d in definitions(fake, sub.id):
+                                if isinstance(d, ast.AST):
+                                    work.append(d)
+                return False
+
+            all_rets = [n for n in ast.walk(fake) if isinstance(n, ast.Return) and n.value is not None]
+            if not all_rets:
+                raise AnalysisError("_deserialize_container[list|tuple]: no return found")
+            for i, rn in enumerate(all_rets):
+                ok = id(rn) in guarded_returns or derives_from_selector(rn.value)
+                check.decide(ok, "C01-R5",
+                             f"_deserialize_container[list|tuple] return #{i + 1} rebuilds the tagged kind",
+                             f"returns `{unparse(rn.value)[:80]}`", mod.line(rn),
+                             fail_detail=f"`return {unparse(rn.value)[:100]}` does not select list vs tuple by the "
+                                         f"stored tag: on this path tuples come back as lists (or vice versa)")
     # fast path coverage: every container kind whose items go through the list/tuple writer
     # (list, tuple, and set — the set arm hands a list to _serialize_container) may meet the
     # 'values' encoding, so its reader arm must understand it
